@@ -19,15 +19,8 @@ Standing assumptions, stated as hypotheses wherever they are used:
 -/
 namespace Teakra.Btdmp
 
-/-- The flags are exact and the queue is bounded: `transmit_empty ⇔ queue empty`,
-`transmit_full ⇔ 16 words queued`, never more than 16 words. -/
-def Inv (b : Btdmp) : Prop :=
-  b.empty = b.queue.isEmpty ∧ b.full = decide (b.queue.length = 16) ∧ b.queue.length ≤ 16
-instance : DecidablePred Inv := fun _ => inferInstanceAs (Decidable (_ ∧ _ ∧ _))
-
-/-- The frame clock is well formed: a non-zero period and a phase inside it. -/
-def Clk (b : Btdmp) : Prop := 1 ≤ b.period ∧ b.timer < b.period
-instance : DecidablePred Clk := fun _ => inferInstanceAs (Decidable (_ ∧ _))
+/- `Inv` (flag invariant) and `Clk` (well-formed frame clock) are defined next to the model, in
+`TeakraModel/Btdmp.lean`: the system model uses them as an executable guard. -/
 
 /-- The two oldest words in order, zeros for missing words. -/
 def pad2 : List U16 → Frame
